@@ -28,7 +28,7 @@ type c13Op struct {
 	Kind string `json:"kind,omitempty"` // rx: req-router req-other probe announce reply linklocal badhtype
 	IP   int    `json:"ip,omitempty"`   // rx / offer: address index
 	Eth  int    `json:"eth,omitempty"`  // rx: ethernet source differs from the ARP sender (index+1, 0 = same)
-	SIP  int    `json:"sip,omitempty"`  // rx: ARP sender IP is another station's address (index+1, 0 = the sender's own): address conflict / takeover
+	SIP  int    `json:"sip,omitempty"`  // rx: ARP sender IP is another station's address (index+1, 0 = the sender's own; 5, 6 = addresses outside the home LAN): address conflict / takeover
 }
 
 type c13Case struct {
@@ -137,8 +137,13 @@ func c13RunSync(tb drv.TB, rec *drv.Rec, sub string, c c13Case) {
 				return
 			}
 			p := ref.ARPPkt{HType: 1, PType: 0x0800, HLen: 6, PLen: 4, Op: 1, SHA: mac, SPA: c13IP(op.T % 4).As4(), TPA: c13IP(op.IP).As4()}
-			if op.SIP > 0 {
-				p.SPA = c13IP((op.SIP - 1) % 4).As4()
+			switch {
+			case op.SIP >= 1 && op.SIP <= 4:
+				p.SPA = c13IP(op.SIP - 1).As4()
+			case op.SIP == 5: // a sender address outside the home LAN: Parse attaches no host to such a frame
+				p.SPA = [4]byte{10, 10, 10, 2}
+			case op.SIP == 6:
+				p.SPA = [4]byte{8, 8, 8, 8}
 			}
 			expectSpoof, expectReject := false, false
 			switch op.Kind {
@@ -477,7 +482,7 @@ func TestC13(t *testing.T) {
 					op.Eth = rapid.IntRange(1, 4).Draw(t, "eth")
 				}
 				if rapid.IntRange(0, 3).Draw(t, "otherSIP") == 0 {
-					op.SIP = rapid.IntRange(1, 4).Draw(t, "sip")
+					op.SIP = rapid.IntRange(1, 6).Draw(t, "sip")
 				}
 			}
 			c.Ops = append(c.Ops, op)
